@@ -84,10 +84,17 @@ def ancestors(info, n):
     return out
 
 
-def check_brackets(trace, info, tests, kinds, repeat):
+def has_hook(info, n, h, instance):
+    """A class layer that does not define a hook inherits it from its bases (Python inheritance; instance layers do not)."""
+    if h in info[n][1]:
+        return True
+    return (not instance) and any(has_hook(info, b, h, instance) for b in info[n][0])
+
+
+def check_brackets(trace, info, tests, kinds, repeat, instance=False):
     """The oracle: written from the statement only."""
-    S = {n for n, (b, h) in info.items() if 'S' in h}
-    T = {n for n, (b, h) in info.items() if 'T' in h}
+    S = {n for n in info if has_hook(info, n, 'S', instance)}
+    T = {n for n in info if has_hook(info, n, 'T', instance)}
     brackets = []
     cur = []
     for e in trace:
@@ -171,7 +178,7 @@ def hooks(shape, h0, h1, n, k0, k1, k2, rep2, instance, pm=False):
                 exp_names, exp_kinds, exp_rep = names[:bad[0] + 1], kinds[:bad[0] + 1], 1
             if bool(bad) != ended:
                 trace.append((0, 'endrun-mismatch', 'x'))
-        why = check_brackets(trace, info, exp_names, exp_kinds, exp_rep)
+        why = check_brackets(trace, info, exp_names, exp_kinds, exp_rep, instance)
     LAST = (shape, tuple(sorted((k, v[1]) for k, v in info.items())), tuple(kinds), repeat, instance, why,
             tuple(e[1:] for e in trace), pm)
     return why is None
